@@ -115,7 +115,8 @@ class C03(Property):
     for _ in range(n):
       op = W.weighted("op", [(6, "take"), (4, "peek"), (3, "skip"),
                              (3, "limit"), (2, "append_list"),
-                             (2, "append_handle"), (2, "map"), (2, "filter"),
+                             (2, "append_handle"), (1, "append_scalars"),
+                             (2, "map"), (2, "filter"),
                              (5, "copy"), (2, "tee"), (3, "thub"),
                              (4, "hub_use"), (2, "next_it"), (2, "for"),
                              (1, "thub_scalar")])
@@ -125,6 +126,8 @@ class C03(Property):
         ops.append([op, W.weighted("cat", CATS_CUT), W.choose("r", 8)])
       elif op == "append_list":
         ops.append([op, W.choose("n", 4), W.choose("two", 2)])
+      elif op == "append_scalars":
+        ops.append([op, W.span("n", 1, 3)])
       elif op == "map":
         ops.append([op, W.choose("f", len(MAPS))])
       elif op == "filter":
@@ -178,6 +181,11 @@ class C03(Property):
                                   ["take", "beyond", 0], ["take", "none", 0]]},
       {"roots": [fin(3)], "ops": [["thub", 1], ["peek", "within", 1],
                                   ["hub_use", 0], ["peek", "zero", 0]]},
+      {"roots": [fin(2)], "ops": [["append_scalars", 2], ["take", "beyond",
+                                                          3]]},
+      {"roots": [fin(1)], "ops": [["append_scalars", 1], ["copy"],
+                                  ["take", "within", 3], ["take", "within",
+                                                          2]]},
     ]
 
   def extra_schedules(self):
@@ -531,6 +539,14 @@ class _Ctx(object):
     else:
       self._inplace(h, "append", "append(%r)" % (a,), lambda r: r.append(a),
                     lambda rest: AppendSeq(rest, ListSeq(a)))
+
+  def op_append_scalars(self, h, op):
+    # append(c1, c2, ...) with non-iterables: Stream(*others) is periodic
+    vals = [600000 + self.nsteps * 10 + i for i in range(op[1])]
+    self._inplace(h, "append", "append(%s)" % ", ".join(map(str, vals)),
+                  lambda r: r.append(*vals),
+                  lambda rest: AppendSeq(rest, FnSeq(
+                    lambda i, v=vals: v[i % len(v)], None)))
 
   def op_append_handle(self, h, op):
     others = [o for o in self.pool if o is not h]
